@@ -54,6 +54,11 @@ inductive RV where
   | cons (x : RV) (rest : RV)
   deriving Repr, DecidableEq, Inhabited
 
+/-- number of items of an item spine -/
+def RV.count : RV → Nat
+  | .cons _ rest => rest.count + 1
+  | _ => 0
+
 def fill : Str := "...".toList
 
 /-! ### `str.__repr__` -/
@@ -91,10 +96,17 @@ def pyStrRepr (P : Char → Bool) (s : Str) : Str :=
 
 /-! ### the elisions of `reprlib` -/
 
+/-- Python `s[k:]` for an integer `k` that may be negative -/
+def pySliceFrom (s : Str) (k : Int) : Str :=
+  if k ≥ 0 then s.drop k.toNat else s.drop (s.length - (-k).toNat)
+
+/-- `s[len(s)-j:]` -/
+def lastChars (s : Str) (j : Nat) : Str := pySliceFrom s ((s.length : Int) - (j : Int))
+
 /-- `if len(s) > lim: i = max(0, (lim-3)//2); j = max(0, lim-3-i); s = s[:i] + '...' + s[len(s)-j:]` -/
 def elide (lim : Nat) (s : Str) : Str :=
   if s.length > lim then
-    s.take ((lim - 3) / 2) ++ fill ++ s.drop (s.length - (lim - 3 - (lim - 3) / 2))
+    s.take ((lim - 3) / 2) ++ fill ++ lastChars s (lim - 3 - (lim - 3) / 2)
   else s
 
 /-- `Repr.repr_str` -/
@@ -103,8 +115,8 @@ def reprStr (P : Char → Bool) (lim : Nat) (x : Str) : Str :=
   if s.length > lim then
     let i := (lim - 3) / 2
     let j := lim - 3 - i
-    let s2 := pyStrRepr P (x.take i ++ x.drop (x.length - j))
-    s2.take i ++ fill ++ s2.drop (s2.length - j)
+    let s2 := pyStrRepr P (x.take i ++ lastChars x j)      -- `x[:i] + x[len(x)-j:]`: `len(x)-j` may be negative
+    s2.take i ++ fill ++ lastChars s2 j
   else s
 
 /-! ### containers -/
@@ -198,20 +210,16 @@ def repr1 (L : Limits) (P : Char → Bool) : RV → Nat → Str
     if s.head? == some '<' then bn.getD s else s
   | .seq k items, level =>
     let b := k.brackets
-    match items, b.empty with
-    | .nil, some e => e
-    | _, _ =>
+    if items.count == 0 then b.empty.getD (b.left ++ b.right)      -- `if not x: return 'set()'`; no pieces
+    else
       match level with
-      | 0 => (match items with
-              | .nil => b.left ++ b.right                    -- `level <= 0 and n` is false: no pieces
-              | _ => b.left ++ fill ++ b.right)
+      | 0 => b.left ++ fill ++ b.right                             -- `if level <= 0 and n: s = self.fillvalue`
       | l + 1 =>
         let ps := reprItems L P items l
         wrapPieces b (k.limit L) ((if b.sorted then possiblySorted ps else ps).map (·.2))
   | .dict entries, level =>
-    match entries with
-    | .nil => "{}".toList
-    | _ =>
+    if entries.count == 0 then "{}".toList
+    else
       match level with
       | 0 => '{' :: fill ++ ['}']
       | l + 1 =>
